@@ -1,9 +1,18 @@
 //! Correspondence harness of property C05 (foreign-field and big-integer gadgets).
-mod sets;
 mod bounds;
+mod fieldrun;
+mod prog;
+mod rec;
+mod sets;
 
 fn main() {
     let mut ctx = mzkh::Ctx::from_args("C05");
     bounds::run(&mut ctx);
+    macro_rules! one {
+        ($name:expr, $F:ty, $K:ty) => {
+            fieldrun::run_set::<$F, $K>(&mut ctx, $name);
+        };
+    }
+    for_each_circuit_set!(one);
     ctx.finish();
 }
